@@ -252,6 +252,11 @@ func regexpMatches(regexp *regexp.Regexp, base, rPath string) []string {
 		if strings.HasSuffix(base, "/") {
 			start--
 		}
+		if start > len(rPath) {
+			// the base is matched on cleaned paths, so a matching
+			// request path can be shorter than the base as written
+			start = len(rPath)
+		}
 
 		matches := regexp.FindStringSubmatch(rPath[start:])
 
